@@ -6,6 +6,7 @@ import XzVerif.Proofs.XzWriter
 import XzVerif.Proofs.XzW
 import XzVerif.Proofs.HashTable
 import XzVerif.Proofs.BinTree
+import XzVerif.Proofs.GoSrcEnc
 /-
   C02 — Everything the xz writer emits is a valid .xz file for other implementations.
 
@@ -110,5 +111,100 @@ theorem C02_writer_output_valid_strict_bintree (c : XzW.Cfg) (hc : XzW.CfgOk c) 
     (Xz.read true cfgCap false (XzW.run c BT.BT4 (BT.St.new c.w2.dictCap c.w2.bufSize) writes)).out = XzW.written writes :=
   XzW.xz_writer_roundtrip true c hc BT.BT4 (BT.Synced c.w2) (BT.bt4_matcherInv c.w2) _ (BT.synced_new c.w2)
     writes hsize hblocks cfgCap (fun h => by cases h)
+
+/-! ### The encoder's arithmetic core, from the SOURCE (regenerated translation, Gen/GoSrc.lean)
+
+  `xzh gen` re-translates lzma/rangecodec.go (encoder half), bytewriter.go, prob.go, state.go's arithmetic and
+  bitops.go into Lean on every run (uint32 / uint64 / int64 as BitVec, Go's wrap-around and shifts); the theorems
+  below say that what the source computes is what the Nat-level codec of this framework (Codec/Rc.lean,
+  Codec/Lzma.lean — the objects of `C02_strict_segment` and of the writer theorems) computes, including the byte limit
+  of the LZMA2 chunk writer.  A change to the source changes the generated definitions and these proofs are re-checked
+  against it. -/
+
+/-- every function on the translation list was translated (nothing fell outside the translator's subset) -/
+theorem C02_source_translation_complete : GoSrc.failures = [] := by decide
+
+/-- `rangeEncoder.EncodeBit` as written in Go = one adaptive step of the Nat-level encoder plus the probability
+    update, and it answers ErrLimit exactly when the step writes while `Available() < 1`; never panics. -/
+theorem C02_source_EncodeBit (fuel : Nat) (g : GoSrc.T_rangeEncoder) (e : Rc.Enc) (L : Nat) (b : BitVec 32) (p : BitVec 16)
+    (rel : GoSrcP.EncRel g e L) (rest : e.Rest) (hp : Rc.POk p.toNat)
+    (hcl : e.cacheLen < 2 ^ 62) (hL : L < 2 ^ 63) (hfuel : e.cacheLen ≤ fuel) :
+    let bit := b.getLsbD 0
+    let e' := e.step ⟨some p.toNat, bit⟩
+    if e'.out.length > e.out.length ∧ GoSrcP.noRoom e L then
+      ∃ g' p', GoSrc.rangeEncoder_EncodeBit fuel g b p = Go.Res.ok (Go.Err.named "ErrLimit", g', p')
+    else
+      ∃ g', GoSrc.rangeEncoder_EncodeBit fuel g b p
+              = Go.Res.ok (Go.Err.nil, g', BitVec.ofNat 16 (Lzma.probNext p.toNat bit))
+            ∧ GoSrcP.EncRel g' e' L ∧ e'.Rest :=
+  GoSrcP.EncodeBit_refines fuel g e L b p rel rest hp hcl hL hfuel
+
+theorem C02_source_DirectEncodeBit (fuel : Nat) (g : GoSrc.T_rangeEncoder) (e : Rc.Enc) (L : Nat) (b : BitVec 32)
+    (rel : GoSrcP.EncRel g e L) (rest : e.Rest)
+    (hcl : e.cacheLen < 2 ^ 62) (hL : L < 2 ^ 63) (hfuel : e.cacheLen ≤ fuel) :
+    let bit := b.getLsbD 0
+    let e' := e.step ⟨none, bit⟩
+    if e'.out.length > e.out.length ∧ GoSrcP.noRoom e L then
+      ∃ g', GoSrc.rangeEncoder_DirectEncodeBit fuel g b = Go.Res.ok (Go.Err.named "ErrLimit", g')
+    else
+      ∃ g', GoSrc.rangeEncoder_DirectEncodeBit fuel g b = Go.Res.ok (Go.Err.nil, g')
+            ∧ GoSrcP.EncRel g' e' L ∧ e'.Rest :=
+  GoSrcP.DirectEncodeBit_refines fuel g e L b rel rest hcl hL hfuel
+
+/-- `rangeEncoder.Close` = five checked shiftLows; with room for them the bytes are `Rc.Enc.close` -/
+theorem C02_source_Close (fuel : Nat) (g : GoSrc.T_rangeEncoder) (e : Rc.Enc) (L : Nat)
+    (rel : GoSrcP.EncRel g e L) (inv : e.Inv) (hcl : e.cacheLen < 2 ^ 62) (hL : L < 2 ^ 63) (hfuel : e.cacheLen + 10 ≤ fuel) :
+    (match GoSrcP.closeL L 5 e with
+     | none => ∃ g', GoSrc.rangeEncoder_Close fuel g = Go.Res.ok (Go.Err.named "ErrLimit", g')
+     | some e' => ∃ g', GoSrc.rangeEncoder_Close fuel g = Go.Res.ok (Go.Err.nil, g') ∧ GoSrcP.EncRel g' e' L) ∧
+    (e.out.length + e.cacheLen + 9 ≤ L →
+      ∃ g', GoSrc.rangeEncoder_Close fuel g = Go.Res.ok (Go.Err.nil, g') ∧ GoSrcP.bytesNat g'.lbw.BW.out = e.close) :=
+  ⟨GoSrcP.Close_refines fuel g e L rel inv hcl hL hfuel,
+   fun room => GoSrcP.Close_refines_noLimit fuel g e L rel inv hcl hL hfuel room⟩
+
+/-- the state `newRangeEncoder` builds represents the initial Nat-level encoder -/
+theorem C02_source_encoder_init (N : BitVec 64) : GoSrcP.EncRel (GoSrcP.encInit N) Rc.Enc.init N.toNat :=
+  GoSrcP.encInit_rel N
+
+/-- the byte-limit test of the LZMA2 writer model (`W2.overflow`, Model/Writer2.lean) IS the source's: with the
+    limited writer admitting `maxCompressed − base` bytes the source answers ErrLimit iff `overflow` -/
+theorem C02_source_byte_limit_is_the_models (base : Nat) (e e' : Rc.Enc) (hb : base ≤ Gen.lzma_maxCompressed) :
+    W2.overflow base e e' = decide (e'.out.length > e.out.length ∧ GoSrcP.noRoom e (Gen.lzma_maxCompressed - base)) := by
+  unfold W2.overflow GoSrcP.noRoom
+  by_cases h1 : e'.out.length > e.out.length <;> by_cases h2 : Gen.lzma_maxCompressed < base + e.out.length + e.cacheLen + 5 <;>
+    simp [h1, h2] <;> omega
+
+/-- probability update, bound, length state, the four state transitions, position / literal state and `nlz32`
+    (hence the position slot of a distance) as the SOURCE computes them are the codec's functions -/
+theorem C02_source_arithmetic :
+    (∀ p : BitVec 16, (GoSrc.prob_dec p).toNat = Lzma.probNext p.toNat true) ∧
+    (∀ p : BitVec 16, p.toNat ≤ 2048 → (GoSrc.prob_inc p).toNat = Lzma.probNext p.toNat false) ∧
+    (∀ (p : BitVec 16) (r : BitVec 32), p.toNat ≤ 2048 → (GoSrc.prob_bound p r).toNat = (r.toNat / 2048) * p.toNat) ∧
+    (∀ l : BitVec 32, (GoSrc.lenState l).toNat = Lzma.lenState l.toNat) ∧
+    (∀ s : GoSrc.T_state, GoSrc.state_updateStateLiteral s = { s with state := BitVec.ofNat 32 (Lzma.updLit s.state.toNat) }) ∧
+    (∀ s : GoSrc.T_state, GoSrc.state_updateStateMatch s = { s with state := BitVec.ofNat 32 (Lzma.updMatch s.state.toNat) }) ∧
+    (∀ s : GoSrc.T_state, GoSrc.state_updateStateRep s = { s with state := BitVec.ofNat 32 (Lzma.updRep s.state.toNat) }) ∧
+    (∀ s : GoSrc.T_state, GoSrc.state_updateStateShortRep s = { s with state := BitVec.ofNat 32 (Lzma.updShortRep s.state.toNat) }) ∧
+    (∀ x : BitVec 32, GoSrc.nlz32 x = Go.Res.ok (BitVec.ofNat 64 (if x.toNat = 0 then 32 else 31 - Nat.log2 x.toNat))) :=
+  ⟨GoSrcP.prob_dec_spec, GoSrcP.prob_inc_spec, GoSrcP.prob_bound_spec, GoSrcP.lenState_spec,
+   GoSrcP.updateStateLiteral_spec, GoSrcP.updateStateMatch_spec, GoSrcP.updateStateRep_spec,
+   GoSrcP.updateStateShortRep_spec, GoSrcP.nlz32_spec⟩
+
+theorem C02_source_context_addresses (s : GoSrc.T_state) (prev : BitVec 8) (head : BitVec 64) (pb : Nat) (hpb : pb ≤ 4)
+    (hm : s.posBitMask = BitVec.ofNat 32 (2 ^ pb - 1)) (hs : s.state.toNat < 12)
+    (hlc : s.Properties.LC.toNat ≤ 8) (hlp : s.Properties.LP.toNat ≤ 4) :
+    (GoSrc.state_states s head).2.1.toNat = s.state.toNat * 16 + head.toNat % 2 ^ pb ∧
+    (GoSrc.state_states s head).2.2.toNat = head.toNat % 2 ^ pb ∧
+    (GoSrc.state_litState s prev head).toNat
+      = Lzma.litState s.Properties.LC.toNat s.Properties.LP.toNat head.toNat prev.toNat :=
+  ⟨(GoSrcP.states_spec s head pb hpb hm hs).2.1, (GoSrcP.states_spec s head pb hpb hm hs).2.2,
+   GoSrcP.litState_spec s prev head hlc hlp⟩
+
+/-- premises satisfiable: the freshly built encoder with the chunk writer's limit meets every hypothesis -/
+example : GoSrcP.EncRel (GoSrcP.encInit 65536#64) Rc.Enc.init 65536 ∧ Rc.Enc.init.Rest ∧ Rc.POk (1024#16).toNat ∧
+    Rc.Enc.init.cacheLen < 2 ^ 62 := by
+  refine ⟨GoSrcP.encInit_rel _, Rc.init_rest, ?_, ?_⟩
+  · unfold Rc.POk; decide
+  · decide
 
 end Props.C02
